@@ -27,6 +27,10 @@ CHECKS = {
    text="TLC checks SchemaTree.tla in model mode (left-to-right walk == declarative longest-prefix resolution; every suffix form of every node resolves to it with or without an extension; long/short forms mutually inverse) for ALL labelled trees up to 3 (quick) / 4 (thorough) nodes and all spellings of <= 3 terms; in trace mode the real tree of each bundled schema (independent XML reader) is a TLC constant: TLC first verifies the suffix-form table against the tree, then validates every lookup the real code answered (existence, node, remainder kept verbatim, short/long/base forms with namespace, long(short)/short(long)/idempotence, bulk df conversion) for every tag x suffix spelling x case x remainder x namespace (thorough: all ~10^5 per schema family; quick: rotating hashed sample of ~25k)",
    note="terms split at '/' and case-folded by the harness; generated (non-bundled) schemas are covered by the model-mode run only",
    technique="TLA+ spec + TLC model checking; TLC trace validation at vocabulary scale"),
+ "C11": dict(
+   text="TLC checks Units.tla in model mode (a unit text selects one factor per class; symbols matched on the text exactly as written) and, in trace mode, takes the unit and modifier sections of each bundled schema (independent XML reader) as constants and validates every verdict of the real code: acceptance vs UNITS_INVALID for every value-taking tag with unit classes x every unit (name spellings in 4 letter cases, singular/plural; symbols exact and in wrong case) x permitted and non-permitted SI modifiers x right/wrong side of the number x foreign-class and junk units x 9 numeric literals; bare numbers draw only the missing-unit warning; conversion defined iff accepted and a factor is declared, never an exception, and the factor is one the text selects (quick: 3 schemas ~11k events; thorough: all 11 schemas, all 41 modifiers, ~119k events)",
+   note="value = n x factor and linearity are compared by the driver with exact rationals (TLC has no reals); plural table hand-written; '^' in factors read as 'e'; folding by the harness",
+   technique="TLA+ spec + TLC model checking; TLC trace validation at vocabulary scale"),
 }
 ALL = ["C%02d" % i for i in range(1, 21)]
 m = {
